@@ -19,7 +19,7 @@ def one(item):
         if r.returncode:
             return name, {'apply': r.stderr[:100]}
         a = srcfacts.check(d, srcfacts.ALL_TIES, os.path.join(V, '.cache', 'work', 'sv-' + name))
-        b = srctie2.check(d, srctie2.DECODERS + srctie2.PER_TYPE, os.path.join(V, '.cache', 'work', 'sv2-' + name))
+        b = srctie2.check(d, srctie2.ALL, os.path.join(V, '.cache', 'work', 'sv2-' + name))
         bad = {k: v for k, v in list(a.items()) + list(b.items()) if not v.startswith('tied')}
         return name, bad
     finally:
